@@ -247,12 +247,12 @@ Proof.
       intros ->. assert (mem l (u :: c) = true) by (apply mem_In; right; auto). congruence.
 Qed.
 
-Theorem prufer_decode_dec (c : list nat) :
+Theorem prufer_decode_args_dec (c : list nat) :
   let n := length c + 2 in
   (forall x, In x c -> x < n) ->
-  prufer_decode (map Z.of_nat c) = Ok (n, bits_of n (dec (seq 0 n) c)).
+  prufer_decode_args (map Z.of_nat c) = Ok (n, bits_of n (dec (seq 0 n) c)).
 Proof.
-  intros n Hc. unfold prufer_decode. rewrite map_res_idx. cbn [bind]. fold n.
+  intros n Hc. unfold prufer_decode_args. rewrite map_res_idx. cbn [bind]. fold n.
   destruct (incr_all_ok c (repeat 1%Z n)) as (deg & E & L & D).
   { intros x Hx. rewrite repeat_length. apply Hc; auto. }
   rewrite E. cbn [bind]. rewrite repeat_length in L.
